@@ -1744,7 +1744,10 @@ class Comparator(BinaryOperator):
             yield sources
             return
 
-        if is_caching_enabled():
+        # a concatenation is one value for ALL bindings of its variables (which it binds to the lists of their values):
+        # a result that contains one cannot be filed under, or answered for, a binding of those variables.
+        use_cache = is_caching_enabled() and not self._compares_a_concatenation_
+        if use_cache:
             if self._cache_.check(sources):
                 yield from self.yield_final_output_from_cache(sources)
                 return
@@ -1766,9 +1769,15 @@ class Comparator(BinaryOperator):
                     values.update(second_value)
                     values.update(operand_value_map)
                     values[self._id_] = HashedValue(res)
-                    self.update_cache(values)
+                    if use_cache:
+                        self.update_cache(values)
                     yield values
-        self.mark_cache_complete(sources)
+        if use_cache:
+            self.mark_cache_complete(sources)
+
+    @property
+    def _compares_a_concatenation_(self) -> bool:
+        return any(isinstance(node, Concatenate) for operand in (self.left, self.right) for node in operand._all_nodes_)
 
     def apply_operation(self, operand_values: Dict[int, HashedValue]):
         return self.operation(operand_values[self.left._id_].value, operand_values[self.right._id_].value)
